@@ -54,57 +54,83 @@ type ValidateOpts struct {
 
 // Rule identifiers (stable).
 const (
-	RuleHandleRange    = "handle-range"      // (a) every handle is inside its arena
-	RuleHandleBackward = "handle-backward"   // (a) ordered arenas only refer backwards
-	RuleNoAbstract     = "no-abstract"       // (b) no abstract scalar kind / literal
-	RuleTypeUnique     = "type-unique"       // (c) no two structurally identical types of the same name
-	RuleExprOperand    = "expr-operand"      // (d) operands of an expression admit no type (ill-typed)
-	RuleExprType       = "expr-type"         // (d) recorded type == independently inferred type
-	RuleEmitCover      = "emit-cover"        // (e) evaluated expression covered by exactly one Emit
-	RuleEmitNever      = "emit-never"        // (e) pre-emitted / statement-result kinds are not in an Emit
-	RuleEmitDominates  = "emit-dominates"    // (e) value is available (emitted, in scope) where used
-	RuleAfterTerm      = "after-terminator"  // (f) nothing follows Return/Break/Continue/Kill in a block
-	RuleReturnPaths    = "return-paths"      // (g) function with result returns on all paths
-	RuleReturnType     = "return-type"       // (g) return value presence and type
-	RuleBreakContinue  = "break-continue"    // (g) break/continue placement
-	RuleCondType       = "cond-type"         // (g) if/break-if condition is bool, switch selector is i32/u32 with matching case values
-	RuleStore          = "store-type"        // (h) store pointer/value agreement, writable space
-	RuleCall           = "call-args"         // (h) call arguments / result
-	RuleAtomic         = "atomic-stmt"       // (h) atomic statement operands / result
-	RuleEPStage        = "ep-stage"          // (i) stage-appropriate shape (result, workgroup size)
-	RuleEPBinding      = "ep-binding"        // (i) every argument / result (member) is bound
-	RuleEPLocation     = "ep-location"       // (i) no two inputs / outputs share a location
-	RuleEPBuiltin      = "ep-builtin"        // (i) builtin valid for stage, direction and type; no duplicates
-	RuleResBinding     = "resource-binding"  // (j) resource globals bound, others not
-	RuleBindingClash   = "binding-conflict"  // (j) one (group,binding) used twice within an entry point
-	RuleNagaValidate   = "naga-validate"     // (k) ir.Validate reports nothing
+	RuleHandleRange    = "handle-range"     // (a) every handle is inside its arena
+	RuleHandleBackward = "handle-backward"  // (a) ordered arenas only refer backwards
+	RuleNoAbstract     = "no-abstract"      // (b) no abstract scalar kind / literal
+	RuleTypeUnique     = "type-unique"      // (c) no two structurally identical types of the same name
+	RuleExprOperand    = "expr-operand"     // (d) operands of an expression admit no type (ill-typed)
+	RuleExprType       = "expr-type"        // (d) recorded type == independently inferred type
+	RuleEmitCover      = "emit-cover"       // (e) evaluated expression covered by exactly one Emit
+	RuleEmitNever      = "emit-never"       // (e) pre-emitted / statement-result kinds are not in an Emit
+	RuleEmitDominates  = "emit-dominates"   // (e) value is available (emitted, in scope) where used
+	RuleAfterTerm      = "after-terminator" // (f) nothing follows Return/Break/Continue/Kill in a block
+	RuleReturnPaths    = "return-paths"     // (g) function with result returns on all paths
+	RuleReturnType     = "return-type"      // (g) return value presence and type
+	RuleBreakContinue  = "break-continue"   // (g) break/continue placement
+	RuleCondType       = "cond-type"        // (g) if/break-if condition is bool, switch selector is i32/u32 with matching case values
+	RuleStore          = "store-type"       // (h) store pointer/value agreement, writable space
+	RuleCall           = "call-args"        // (h) call arguments / result
+	RuleAtomic         = "atomic-stmt"      // (h) atomic statement operands / result
+	RuleEPStage        = "ep-stage"         // (i) stage-appropriate shape (result, workgroup size)
+	RuleEPBinding      = "ep-binding"       // (i) every argument / result (member) is bound
+	RuleEPLocation     = "ep-location"      // (i) no two inputs / outputs share a location
+	RuleEPBuiltin      = "ep-builtin"       // (i) builtin valid for stage, direction and type; no duplicates
+	RuleResBinding     = "resource-binding" // (j) resource globals bound, others not
+	RuleBindingClash   = "binding-conflict" // (j) one (group,binding) used twice within an entry point
+	RuleNagaValidate   = "naga-validate"    // (k) ir.Validate reports nothing
 )
 
+// internal rule indices (parallel to Rules()).
+const (
+	rHandleRange = iota
+	rHandleBackward
+	rNoAbstract
+	rTypeUnique
+	rExprOperand
+	rExprType
+	rEmitCover
+	rEmitNever
+	rEmitDominates
+	rAfterTerm
+	rReturnPaths
+	rReturnType
+	rBreakContinue
+	rCondType
+	rStore
+	rCall
+	rAtomic
+	rEPStage
+	rEPBinding
+	rEPLocation
+	rEPBuiltin
+	rResBinding
+	rBindingClash
+	rNagaValidate
+	nRules
+)
+
+var ruleNames = [nRules]string{RuleHandleRange, RuleHandleBackward, RuleNoAbstract, RuleTypeUnique, RuleExprOperand, RuleExprType, RuleEmitCover, RuleEmitNever, RuleEmitDominates, RuleAfterTerm, RuleReturnPaths, RuleReturnType, RuleBreakContinue, RuleCondType, RuleStore, RuleCall, RuleAtomic, RuleEPStage, RuleEPBinding, RuleEPLocation, RuleEPBuiltin, RuleResBinding, RuleBindingClash, RuleNagaValidate}
+
 // Rules lists every rule id.
-func Rules() []string {
-	return []string{
-		RuleHandleRange, RuleHandleBackward, RuleNoAbstract, RuleTypeUnique, RuleExprOperand, RuleExprType,
-		RuleEmitCover, RuleEmitNever, RuleEmitDominates, RuleAfterTerm, RuleReturnPaths, RuleReturnType,
-		RuleBreakContinue, RuleCondType, RuleStore, RuleCall, RuleAtomic, RuleEPStage, RuleEPBinding,
-		RuleEPLocation, RuleEPBuiltin, RuleResBinding, RuleBindingClash, RuleNagaValidate,
-	}
-}
+func Rules() []string { return append([]string(nil), ruleNames[:]...) }
 
 type validator struct {
-	m   *ir.Module
-	o   ValidateOpts
-	rep *Report
+	m     *ir.Module
+	o     ValidateOpts
+	rep   *Report
+	count [nRules]int
 }
 
-func (v *validator) fired(rule string) { v.rep.Fired[rule]++ }
+func (v *validator) fired(rule int) { v.count[rule]++ }
 
-func (v *validator) add(rule, format string, args ...any) {
-	v.rep.Findings = append(v.rep.Findings, Finding{Rule: rule, Detail: fmt.Sprintf(format, args...)})
+func (v *validator) add(rule int, format string, args ...any) {
+	v.rep.Findings = append(v.rep.Findings, Finding{Rule: ruleNames[rule], Detail: fmt.Sprintf(format, args...)})
 }
 
-// check records one evaluation of rule and a finding when ok is false.
-func (v *validator) check(rule string, ok bool, format string, args ...any) bool {
-	v.rep.Fired[rule]++
+// check records one evaluation of rule and a finding when ok is false. Hot paths use
+// `if cond { v.fired(r) } else { v.add(r, ...) }` instead so that the arguments are only built on failure.
+func (v *validator) check(rule int, ok bool, format string, args ...any) bool {
+	v.count[rule]++
 	if !ok {
 		v.add(rule, format, args...)
 	}
@@ -113,20 +139,20 @@ func (v *validator) check(rule string, ok bool, format string, args ...any) bool
 
 // Validate checks m against the C09 contract. It never panics on malformed modules.
 func Validate(m *ir.Module, o ValidateOpts) (rep *Report) {
-	rep = &Report{Fired: map[string]int{}}
-	for _, r := range Rules() {
-		rep.Fired[r] = 0
-	}
-	if m == nil {
-		rep.Findings = append(rep.Findings, Finding{RuleHandleRange, "nil module"})
-		return rep
-	}
+	rep = &Report{Fired: make(map[string]int, nRules)}
 	v := &validator{m: m, o: o, rep: rep}
 	defer func() {
 		if r := recover(); r != nil {
-			v.add(RuleHandleRange, "validator aborted on malformed module: %v", r)
+			v.add(rHandleRange, "validator aborted on malformed module: %v", r)
+		}
+		for i, n := range ruleNames {
+			rep.Fired[n] = v.count[i]
 		}
 	}()
+	if m == nil {
+		v.add(rHandleRange, "nil module")
+		return rep
+	}
 	v.types()
 	v.constantsAndGlobals()
 	v.globalExpressions()
@@ -156,12 +182,12 @@ func (v *validator) nagaValidate() {
 		}()
 		errs, err = ir.Validate(v.m)
 	}()
-	v.check(RuleNagaValidate, err == nil, "ir.Validate returned error value: %v", err)
+	v.check(rNagaValidate, err == nil, "ir.Validate returned error value: %v", err)
 	for _, e := range errs {
-		v.check(RuleNagaValidate, false, "%s", e.Error())
+		v.check(rNagaValidate, false, "%s", e.Error())
 	}
 	if len(errs) == 0 {
-		v.fired(RuleNagaValidate)
+		v.fired(rNagaValidate)
 	}
 }
 
@@ -195,11 +221,11 @@ func (v *validator) types() {
 	for i, ty := range m.Types {
 		h := ir.TypeHandle(i)
 		ref := func(what string, r ir.TypeHandle) {
-			if v.check(RuleHandleRange, v.typeOK(r), "type %d %s: type handle %d out of range (%d types)", i, what, r, len(m.Types)) {
-				v.check(RuleHandleBackward, r < h, "type %d %s refers to type %d (not strictly earlier)", i, what, r)
+			if v.check(rHandleRange, v.typeOK(r), "type %d %s: type handle %d out of range (%d types)", i, what, r, len(m.Types)) {
+				v.check(rHandleBackward, r < h, "type %d %s refers to type %d (not strictly earlier)", i, what, r)
 			}
 		}
-		v.check(RuleHandleRange, ty.Inner != nil, "type %d has nil inner", i)
+		v.check(rHandleRange, ty.Inner != nil, "type %d has nil inner", i)
 		switch x := ty.Inner.(type) {
 		case ir.ArrayType:
 			ref("array base", x.Base)
@@ -212,7 +238,10 @@ func (v *validator) types() {
 		case ir.BindingArrayType:
 			ref("binding-array base", x.Base)
 		}
-		v.check(RuleNoAbstract, !innerHasAbstract(ty.Inner), "type %d %q is abstract: %s", i, ty.Name, describeInner(m, ty.Inner, 0))
+		v.count[rNoAbstract]++
+		if innerHasAbstract(ty.Inner) {
+			v.add(rNoAbstract, "type %d %q is abstract: %s", i, ty.Name, describeInner(m, ty.Inner, 0))
+		}
 	}
 	// (c) uniqueness. Identity of an arena entry = (name, structure); nested handles are compared
 	// as handles (an earlier duplicate is reported on its own).
@@ -223,20 +252,20 @@ func (v *validator) types() {
 		}
 		key := HashValue(ty, HashOptions{})
 		if j, dup := seen[key]; dup {
-			v.check(RuleTypeUnique, false, "types %d and %d are identical (name %q): %s", j, i, ty.Name, describeInner(m, ty.Inner, 0))
+			v.check(rTypeUnique, false, "types %d and %d are identical (name %q): %s", j, i, ty.Name, describeInner(m, ty.Inner, 0))
 		} else {
 			seen[key] = i
-			v.fired(RuleTypeUnique)
+			v.fired(rTypeUnique)
 		}
 	}
 	st := m.SpecialTypes
 	for _, p := range []*ir.TypeHandle{st.ExternalTextureParams, st.ExternalTextureTransferFunction, st.RayIntersection} {
 		if p != nil {
-			v.check(RuleHandleRange, v.typeOK(*p), "special type handle %d out of range", *p)
+			v.check(rHandleRange, v.typeOK(*p), "special type handle %d out of range", *p)
 		}
 	}
 	for i, h := range m.TypeUseOrder {
-		v.check(RuleHandleRange, v.typeOK(h), "TypeUseOrder[%d] = %d out of range", i, h)
+		v.check(rHandleRange, v.typeOK(h), "TypeUseOrder[%d] = %d out of range", i, h)
 	}
 }
 
@@ -244,36 +273,39 @@ func (v *validator) constantsAndGlobals() {
 	m := v.m
 	nge := len(m.GlobalExpressions)
 	for i, c := range m.Constants {
-		if v.check(RuleHandleRange, v.typeOK(c.Type), "constant %d %q: type %d out of range", i, c.Name, c.Type) {
-			v.check(RuleNoAbstract, !innerHasAbstract(m.Types[c.Type].Inner), "constant %d %q has abstract type %s", i, c.Name, describeInner(m, m.Types[c.Type].Inner, 0))
+		if v.check(rHandleRange, v.typeOK(c.Type), "constant %d %q: type %d out of range", i, c.Name, c.Type) {
+			v.count[rNoAbstract]++
+			if innerHasAbstract(m.Types[c.Type].Inner) {
+				v.add(rNoAbstract, "constant %d %q has abstract type %s", i, c.Name, describeInner(m, m.Types[c.Type].Inner, 0))
+			}
 		}
 		if nge > 0 || c.Value == nil {
-			v.check(RuleHandleRange, int(c.Init) < nge, "constant %d %q: init expression %d out of range (%d global expressions)", i, c.Name, c.Init, nge)
+			v.check(rHandleRange, int(c.Init) < nge, "constant %d %q: init expression %d out of range (%d global expressions)", i, c.Name, c.Init, nge)
 		}
 		switch val := c.Value.(type) {
 		case ir.ScalarValue:
-			v.check(RuleNoAbstract, val.Kind != ir.ScalarAbstractInt && val.Kind != ir.ScalarAbstractFloat, "constant %d %q has abstract scalar value", i, c.Name)
+			v.check(rNoAbstract, val.Kind != ir.ScalarAbstractInt && val.Kind != ir.ScalarAbstractFloat, "constant %d %q has abstract scalar value", i, c.Name)
 		case ir.CompositeValue:
 			for j, comp := range val.Components {
-				if v.check(RuleHandleRange, int(comp) < len(m.Constants), "constant %d %q: component %d = constant %d out of range", i, c.Name, j, comp) {
-					v.check(RuleHandleBackward, int(comp) < i, "constant %d %q: component %d refers to constant %d (not strictly earlier)", i, c.Name, j, comp)
+				if v.check(rHandleRange, int(comp) < len(m.Constants), "constant %d %q: component %d = constant %d out of range", i, c.Name, j, comp) {
+					v.check(rHandleBackward, int(comp) < i, "constant %d %q: component %d refers to constant %d (not strictly earlier)", i, c.Name, j, comp)
 				}
 			}
 		}
 	}
 	for i, o := range m.Overrides {
-		v.check(RuleHandleRange, v.typeOK(o.Ty), "override %d %q: type %d out of range", i, o.Name, o.Ty)
+		v.check(rHandleRange, v.typeOK(o.Ty), "override %d %q: type %d out of range", i, o.Name, o.Ty)
 		if o.Init != nil {
-			v.check(RuleHandleRange, int(*o.Init) < nge, "override %d %q: init expression %d out of range", i, o.Name, *o.Init)
+			v.check(rHandleRange, int(*o.Init) < nge, "override %d %q: init expression %d out of range", i, o.Name, *o.Init)
 		}
 	}
 	for i, g := range m.GlobalVariables {
-		v.check(RuleHandleRange, v.typeOK(g.Type), "global %d %q: type %d out of range", i, g.Name, g.Type)
+		v.check(rHandleRange, v.typeOK(g.Type), "global %d %q: type %d out of range", i, g.Name, g.Type)
 		if g.Init != nil {
-			v.check(RuleHandleRange, int(*g.Init) < len(m.Constants), "global %d %q: init constant %d out of range", i, g.Name, *g.Init)
+			v.check(rHandleRange, int(*g.Init) < len(m.Constants), "global %d %q: init constant %d out of range", i, g.Name, *g.Init)
 		}
 		if g.InitExpr != nil {
-			v.check(RuleHandleRange, int(*g.InitExpr) < nge, "global %d %q: init expression %d out of range", i, g.Name, *g.InitExpr)
+			v.check(rHandleRange, int(*g.InitExpr) < nge, "global %d %q: init expression %d out of range", i, g.Name, *g.InitExpr)
 		}
 	}
 }
@@ -354,53 +386,86 @@ func operandsOf(k ir.ExpressionKind) []ir.ExpressionHandle {
 // exprHandles checks the non-expression handles an expression carries (types, constants, ...).
 func (v *validator) exprHandles(where string, i int, k ir.ExpressionKind, fn *ir.Function) {
 	m := v.m
+	rng := func(ok bool, what string, h uint32) {
+		v.count[rHandleRange]++
+		if !ok {
+			v.add(rHandleRange, "%s e%d: %s %d out of range", where, i, what, h)
+		}
+	}
 	switch x := k.(type) {
 	case ir.ExprConstant:
-		v.check(RuleHandleRange, int(x.Constant) < len(m.Constants), "%s e%d: constant %d out of range", where, i, x.Constant)
-	case ir.ExprOverride:
-		v.check(RuleHandleRange, int(x.Override) < len(m.Overrides), "%s e%d: override %d out of range", where, i, x.Override)
+		rng(int(x.Constant) < len(m.Constants), "constant", uint32(x.Constant))
+		return
 	case ir.ExprZeroValue:
-		v.check(RuleHandleRange, v.typeOK(x.Type), "%s e%d: zero-value type %d out of range", where, i, x.Type)
+		rng(v.typeOK(x.Type), "zero-value type", uint32(x.Type))
+		return
 	case ir.ExprCompose:
-		v.check(RuleHandleRange, v.typeOK(x.Type), "%s e%d: compose type %d out of range", where, i, x.Type)
+		rng(v.typeOK(x.Type), "compose type", uint32(x.Type))
+		return
 	case ir.ExprGlobalVariable:
-		v.check(RuleHandleRange, int(x.Variable) < len(m.GlobalVariables), "%s e%d: global %d out of range", where, i, x.Variable)
+		rng(int(x.Variable) < len(m.GlobalVariables), "global", uint32(x.Variable))
+		return
 	case ir.ExprLocalVariable:
-		v.check(RuleHandleRange, fn != nil && int(x.Variable) < len(fn.LocalVars), "%s e%d: local %d out of range", where, i, x.Variable)
+		rng(fn != nil && int(x.Variable) < len(fn.LocalVars), "local", x.Variable)
+		return
 	case ir.ExprFunctionArgument:
-		v.check(RuleHandleRange, fn != nil && int(x.Index) < len(fn.Arguments), "%s e%d: argument %d out of range", where, i, x.Index)
+		rng(fn != nil && int(x.Index) < len(fn.Arguments), "argument", x.Index)
+		return
+	}
+	switch x := k.(type) {
+	case ir.ExprConstant:
+		v.check(rHandleRange, int(x.Constant) < len(m.Constants), "%s e%d: constant %d out of range", where, i, x.Constant)
+	case ir.ExprOverride:
+		v.check(rHandleRange, int(x.Override) < len(m.Overrides), "%s e%d: override %d out of range", where, i, x.Override)
+	case ir.ExprZeroValue:
+		v.check(rHandleRange, v.typeOK(x.Type), "%s e%d: zero-value type %d out of range", where, i, x.Type)
+	case ir.ExprCompose:
+		v.check(rHandleRange, v.typeOK(x.Type), "%s e%d: compose type %d out of range", where, i, x.Type)
+	case ir.ExprGlobalVariable:
+		v.check(rHandleRange, int(x.Variable) < len(m.GlobalVariables), "%s e%d: global %d out of range", where, i, x.Variable)
+	case ir.ExprLocalVariable:
+		v.check(rHandleRange, fn != nil && int(x.Variable) < len(fn.LocalVars), "%s e%d: local %d out of range", where, i, x.Variable)
+	case ir.ExprFunctionArgument:
+		v.check(rHandleRange, fn != nil && int(x.Index) < len(fn.Arguments), "%s e%d: argument %d out of range", where, i, x.Index)
 	case ir.ExprCallResult:
-		v.check(RuleHandleRange, int(x.Function) < len(m.Functions), "%s e%d: function %d out of range", where, i, x.Function)
+		v.check(rHandleRange, int(x.Function) < len(m.Functions), "%s e%d: function %d out of range", where, i, x.Function)
 	case ir.ExprAtomicResult:
-		v.check(RuleHandleRange, v.typeOK(x.Ty), "%s e%d: atomic result type %d out of range", where, i, x.Ty)
+		v.check(rHandleRange, v.typeOK(x.Ty), "%s e%d: atomic result type %d out of range", where, i, x.Ty)
 	case ir.ExprSubgroupOperationResult:
-		v.check(RuleHandleRange, v.typeOK(x.Type), "%s e%d: subgroup result type %d out of range", where, i, x.Type)
+		v.check(rHandleRange, v.typeOK(x.Type), "%s e%d: subgroup result type %d out of range", where, i, x.Type)
 	case ir.Literal:
 		switch x.Value.(type) {
 		case ir.LiteralAbstractInt, ir.LiteralAbstractFloat:
-			v.check(RuleNoAbstract, false, "%s e%d: abstract literal %T(%v)", where, i, x.Value, x.Value)
+			v.check(rNoAbstract, false, "%s e%d: abstract literal %T(%v)", where, i, x.Value, x.Value)
 		default:
-			v.fired(RuleNoAbstract)
+			v.fired(rNoAbstract)
 		}
 	}
 }
 
 func (v *validator) arena(where string, exprs []ir.Expression, fn *ir.Function) {
 	for i, e := range exprs {
-		if !v.check(RuleHandleRange, e.Kind != nil, "%s e%d: nil kind", where, i) {
+		v.count[rHandleRange]++
+		if e.Kind == nil {
+			v.add(rHandleRange, "%s e%d: nil kind", where, i)
 			continue
 		}
 		v.exprHandles(where, i, e.Kind, fn)
 		_, isAlias := e.Kind.(ir.ExprAlias)
 		_, isPhi := e.Kind.(ir.ExprPhi)
 		for _, op := range operandsOf(e.Kind) {
-			if !v.check(RuleHandleRange, int(op) < len(exprs), "%s e%d (%T): operand e%d out of range (%d expressions)", where, i, e.Kind, op, len(exprs)) {
+			v.count[rHandleRange]++
+			if int(op) >= len(exprs) {
+				v.add(rHandleRange, "%s e%d (%T): operand e%d out of range (%d expressions)", where, i, e.Kind, op, len(exprs))
 				continue
 			}
 			if (isAlias || isPhi) && v.o.AllowSSA {
 				continue
 			}
-			v.check(RuleHandleBackward, int(op) < i, "%s e%d (%T): operand e%d is not strictly earlier", where, i, e.Kind, op)
+			v.count[rHandleBackward]++
+			if int(op) >= i {
+				v.add(rHandleBackward, "%s e%d (%T): operand e%d is not strictly earlier", where, i, e.Kind, op)
+			}
 		}
 	}
 }
@@ -410,7 +475,7 @@ func (v *validator) globalExpressions() {
 	for i, e := range v.m.GlobalExpressions {
 		switch e.Kind.(type) {
 		case ir.ExprFunctionArgument, ir.ExprLocalVariable, ir.ExprLoad, ir.ExprCallResult, ir.ExprAtomicResult, ir.ExprGlobalVariable:
-			v.check(RuleExprOperand, false, "global-expr e%d: kind %T is not a constant expression", i, e.Kind)
+			v.check(rExprOperand, false, "global-expr e%d: kind %T is not a constant expression", i, e.Kind)
 		}
 	}
 	// Constant init / global init types agree with the declared type.
@@ -419,33 +484,41 @@ func (v *validator) globalExpressions() {
 	for i := range v.m.GlobalExpressions {
 		if err := t.errs[i]; err != nil {
 			if _, inherited := err.(*inheritedErr); !inherited {
-				v.check(RuleExprOperand, false, "global-expr e%d (%T): %v", i, v.m.GlobalExpressions[i].Kind, err)
+				v.check(rExprOperand, false, "global-expr e%d (%T): %v", i, v.m.GlobalExpressions[i].Kind, err)
 			}
 		} else {
-			v.fired(RuleExprOperand)
-			v.check(RuleNoAbstract, !innerHasAbstract(t.types[i].In), "global-expr e%d (%T) has abstract type %s", i, v.m.GlobalExpressions[i].Kind, describe(v.m, t.types[i]))
+			v.fired(rExprOperand)
+			if _, isLit := v.m.GlobalExpressions[i].Kind.(ir.Literal); !isLit {
+				v.count[rNoAbstract]++
+				if innerHasAbstract(t.types[i].In) {
+					v.add(rNoAbstract, "global-expr e%d (%T) has abstract type %s", i, v.m.GlobalExpressions[i].Kind, describe(v.m, t.types[i]))
+				}
+			}
 		}
 	}
-	declared := func(what string, init ir.ExpressionHandle, ty ir.TypeHandle) {
+	declared := func(what func() string, init ir.ExpressionHandle, ty ir.TypeHandle) {
 		if int(init) >= len(t.types) || t.errs[init] != nil || !v.typeOK(ty) {
 			return
 		}
 		want := rtype{H: int(ty), In: v.m.Types[ty].Inner}
-		v.check(RuleExprType, sameType(v.m, t.types[init], want), "%s: init expression e%d has type %s, declared %s", what, init, describe(v.m, t.types[init]), describe(v.m, want))
+		v.count[rExprType]++
+		if !sameType(v.m, t.types[init], want) {
+			v.add(rExprType, "%s: init expression e%d has type %s, declared %s", what(), init, describe(v.m, t.types[init]), describe(v.m, want))
+		}
 	}
 	if len(v.m.GlobalExpressions) > 0 {
 		for i, c := range v.m.Constants {
-			declared(fmt.Sprintf("constant %d %q", i, c.Name), c.Init, c.Type)
+			declared(func() string { return fmt.Sprintf("constant %d %q", i, c.Name) }, c.Init, c.Type)
 		}
 	}
 	for i, g := range v.m.GlobalVariables {
 		if g.InitExpr != nil {
-			declared(fmt.Sprintf("global %d %q", i, g.Name), *g.InitExpr, g.Type)
+			declared(func() string { return fmt.Sprintf("global %d %q", i, g.Name) }, *g.InitExpr, g.Type)
 		}
 	}
 	for i, o := range v.m.Overrides {
 		if o.Init != nil {
-			declared(fmt.Sprintf("override %d %q", i, o.Name), *o.Init, o.Ty)
+			declared(func() string { return fmt.Sprintf("override %d %q", i, o.Name) }, *o.Init, o.Ty)
 		}
 	}
 }
@@ -500,50 +573,62 @@ func (v *validator) function(fn *ir.Function, where string, ep *ir.EntryPoint) {
 	f := &fnValidator{validator: v, fn: fn, where: where, ep: ep, n: len(fn.Expressions)}
 	// (a) handles
 	for i, a := range fn.Arguments {
-		v.check(RuleHandleRange, v.typeOK(a.Type), "%s: argument %d type %d out of range", where, i, a.Type)
+		v.check(rHandleRange, v.typeOK(a.Type), "%s: argument %d type %d out of range", where, i, a.Type)
 	}
 	if fn.Result != nil {
-		v.check(RuleHandleRange, v.typeOK(fn.Result.Type), "%s: result type %d out of range", where, fn.Result.Type)
+		v.check(rHandleRange, v.typeOK(fn.Result.Type), "%s: result type %d out of range", where, fn.Result.Type)
 	}
 	for i, l := range fn.LocalVars {
-		v.check(RuleHandleRange, v.typeOK(l.Type), "%s: local %d %q type %d out of range", where, i, l.Name, l.Type)
+		v.check(rHandleRange, v.typeOK(l.Type), "%s: local %d %q type %d out of range", where, i, l.Name, l.Type)
 		if l.Init != nil {
-			v.check(RuleHandleRange, int(*l.Init) < f.n, "%s: local %d %q init e%d out of range", where, i, l.Name, *l.Init)
+			v.check(rHandleRange, int(*l.Init) < f.n, "%s: local %d %q init e%d out of range", where, i, l.Name, *l.Init)
 		}
 	}
 	for h := range fn.NamedExpressions {
-		v.check(RuleHandleRange, int(h) < f.n, "%s: named expression e%d out of range", where, h)
+		v.check(rHandleRange, int(h) < f.n, "%s: named expression e%d out of range", where, h)
 	}
 	v.arena(where, fn.Expressions, fn)
 
 	// (d) types
-	v.check(RuleExprType, len(fn.ExpressionTypes) == f.n, "%s: %d expressions but %d recorded types", where, f.n, len(fn.ExpressionTypes))
+	v.check(rExprType, len(fn.ExpressionTypes) == f.n, "%s: %d expressions but %d recorded types", where, f.n, len(fn.ExpressionTypes))
 	f.ty = newTyper(m, fn)
 	f.ty.inferAll()
 	for i := 0; i < f.n; i++ {
 		kind := fn.Expressions[i].Kind
 		if err := f.ty.errs[i]; err != nil {
 			if _, inherited := err.(*inheritedErr); !inherited {
-				v.check(RuleExprOperand, false, "%s e%d (%T): %v", where, i, kind, err)
+				v.check(rExprOperand, false, "%s e%d (%T): %v", where, i, kind, err)
 			}
 			continue
 		}
-		v.fired(RuleExprOperand)
+		v.fired(rExprOperand)
 		inf := f.ty.types[i]
-		v.check(RuleNoAbstract, !innerHasAbstract(inf.In), "%s e%d (%T) has abstract type %s", where, i, kind, describe(m, inf))
+		if _, isLit := kind.(ir.Literal); !isLit { // abstract literals are reported by exprHandles
+			v.count[rNoAbstract]++
+			if innerHasAbstract(inf.In) {
+				v.add(rNoAbstract, "%s e%d (%T) has abstract type %s", where, i, kind, describe(m, inf))
+			}
+		}
 		if i >= len(fn.ExpressionTypes) {
 			continue
 		}
+		v.count[rExprType]++
 		rec, err := f.ty.resolution(fn.ExpressionTypes[i])
-		if !v.check(RuleExprType, err == nil, "%s e%d (%T): recorded type unusable: %v (inferred %s)", where, i, kind, err, describe(m, inf)) {
+		if err != nil {
+			v.add(rExprType, "%s e%d (%T): recorded type unusable: %v (inferred %s)", where, i, kind, err, describe(m, inf))
 			continue
 		}
-		v.check(RuleExprType, sameType(m, rec, inf), "%s e%d (%T): recorded %s, inferred %s", where, i, kind, describe(m, rec), describe(m, inf))
+		if !sameType(m, rec, inf) {
+			v.add(rExprType, "%s e%d (%T): recorded %s, inferred %s", where, i, kind, describe(m, rec), describe(m, inf))
+		}
 	}
 	for i, l := range fn.LocalVars {
 		if l.Init != nil && int(*l.Init) < f.n && f.ty.errs[*l.Init] == nil && v.typeOK(l.Type) {
 			want := rtype{H: int(l.Type), In: m.Types[l.Type].Inner}
-			v.check(RuleExprType, sameType(m, f.ty.types[*l.Init], want), "%s: local %d %q init e%d has type %s, declared %s", where, i, l.Name, *l.Init, describe(m, f.ty.types[*l.Init]), describe(m, want))
+			v.count[rExprType]++
+			if !sameType(m, f.ty.types[*l.Init], want) {
+				v.add(rExprType, "%s: local %d %q init e%d has type %s, declared %s", where, i, l.Name, *l.Init, describe(m, f.ty.types[*l.Init]), describe(m, want))
+			}
 		}
 	}
 
@@ -551,7 +636,7 @@ func (v *validator) function(fn *ir.Function, where string, ep *ir.EntryPoint) {
 	f.cover = make([]int, f.n)
 	walkBlocks(fn.Body, func(s ir.Statement) {
 		if e, ok := s.Kind.(ir.StmtEmit); ok {
-			if !v.check(RuleHandleRange, e.Range.Start <= e.Range.End && int(e.Range.End) <= f.n, "%s: emit range [%d,%d) outside the %d expressions", where, e.Range.Start, e.Range.End, f.n) {
+			if !v.check(rHandleRange, e.Range.Start <= e.Range.End && int(e.Range.End) <= f.n, "%s: emit range [%d,%d) outside the %d expressions", where, e.Range.Start, e.Range.End, f.n) {
 				return
 			}
 			for h := e.Range.Start; h < e.Range.End; h++ {
@@ -588,13 +673,19 @@ func (v *validator) function(fn *ir.Function, where string, ep *ir.EntryPoint) {
 			continue
 		}
 		if preEmitted(k) || statementResult(k) {
-			v.check(RuleEmitNever, f.cover[i] == 0, "%s e%d (%T) is covered by %d Emit range(s) but is never emitted", where, i, k, f.cover[i])
+			v.count[rEmitNever]++
+			if f.cover[i] != 0 {
+				v.add(rEmitNever, "%s e%d (%T) is covered by %d Emit range(s) but is never emitted", where, i, k, f.cover[i])
+			}
 			continue
 		}
 		if !needed[i] {
 			continue
 		}
-		v.check(RuleEmitCover, f.cover[i] == 1, "%s e%d (%T) is evaluated but covered by %d Emit ranges", where, i, k, f.cover[i])
+		v.count[rEmitCover]++
+		if f.cover[i] != 1 {
+			v.add(rEmitCover, "%s e%d (%T) is evaluated but covered by %d Emit ranges", where, i, k, f.cover[i])
+		}
 	}
 
 	// (e) dominance, (f), (g), (h): one structured walk
@@ -607,7 +698,7 @@ func (v *validator) function(fn *ir.Function, where string, ep *ir.EntryPoint) {
 	f.block(fn.Body)
 	if fn.Result != nil {
 		b := f.behave(fn.Body)
-		v.check(RuleReturnPaths, b&bNext == 0, "%s: control can reach the end of the body without returning a value", where)
+		v.check(rReturnPaths, b&bNext == 0, "%s: control can reach the end of the body without returning a value", where)
 	}
 }
 
@@ -711,11 +802,16 @@ func (f *fnValidator) popTo(mark int) {
 	f.scope = f.scope[:mark]
 }
 
-func (f *fnValidator) use(h ir.ExpressionHandle, what string) {
-	if !f.check(RuleHandleRange, int(h) < f.n, "%s: %s uses e%d out of range (%d expressions)", f.where, what, h, f.n) {
+func (f *fnValidator) use(h ir.ExpressionHandle, by any) {
+	f.count[rHandleRange]++
+	if int(h) >= f.n {
+		f.add(rHandleRange, "%s: %T uses e%d out of range (%d expressions)", f.where, by, h, f.n)
 		return
 	}
-	f.check(RuleEmitDominates, f.avail[h], "%s: %s uses e%d (%T) where it is not available (no dominating Emit / result statement in scope)", f.where, what, h, f.fn.Expressions[h].Kind)
+	f.count[rEmitDominates]++
+	if !f.avail[h] {
+		f.add(rEmitDominates, "%s: %T uses e%d (%T) where it is not available (no dominating Emit / result statement in scope)", f.where, by, h, f.fn.Expressions[h].Kind)
+	}
 }
 
 func (f *fnValidator) typeOf(h ir.ExpressionHandle) (rtype, bool) {
@@ -769,10 +865,9 @@ func isTerminator(s ir.Statement) bool {
 
 func (f *fnValidator) block(b ir.Block) {
 	for i, s := range b {
+		f.count[rAfterTerm]++
 		if i > 0 && isTerminator(b[i-1]) {
-			f.check(RuleAfterTerm, false, "%s: %T follows %T in the same block", f.where, s.Kind, b[i-1].Kind)
-		} else {
-			f.fired(RuleAfterTerm)
+			f.add(rAfterTerm, "%s: %T follows %T in the same block", f.where, s.Kind, b[i-1].Kind)
 		}
 		f.stmt(s)
 	}
@@ -780,9 +875,9 @@ func (f *fnValidator) block(b ir.Block) {
 
 func (f *fnValidator) stmt(s ir.Statement) {
 	fn := f.fn
-	what := fmt.Sprintf("%T", s.Kind)
+	what := s.Kind
 	if s.Kind == nil {
-		f.check(RuleHandleRange, false, "%s: statement with nil kind", f.where)
+		f.check(rHandleRange, false, "%s: statement with nil kind", f.where)
 		return
 	}
 	uses, defs := stmtUses(s)
@@ -805,15 +900,18 @@ func (f *fnValidator) stmt(s ir.Statement) {
 			if !(isPhi && f.o.AllowSSA) {
 				for _, op := range operandsOf(kind) {
 					if int(op) < f.n {
-						f.check(RuleEmitDominates, f.avail[op], "%s: e%d (%T) is emitted while its operand e%d (%T) is not available", f.where, h, kind, op, fn.Expressions[op].Kind)
+						f.count[rEmitDominates]++
+						if !f.avail[op] {
+							f.add(rEmitDominates, "%s: e%d (%T) is emitted while its operand e%d (%T) is not available", f.where, h, kind, op, fn.Expressions[op].Kind)
+						}
 					}
 				}
 			}
 			if _, ok := kind.(ir.ExprAlias); ok && !f.o.AllowSSA {
-				f.check(RuleExprOperand, false, "%s e%d: ExprAlias outside SSA mode", f.where, h)
+				f.check(rExprOperand, false, "%s e%d: ExprAlias outside SSA mode", f.where, h)
 			}
 			if isPhi && !f.o.AllowSSA {
-				f.check(RuleExprOperand, false, "%s e%d: ExprPhi outside SSA mode", f.where, h)
+				f.check(rExprOperand, false, "%s e%d: ExprPhi outside SSA mode", f.where, h)
 			}
 			if !preEmitted(kind) && !statementResult(kind) {
 				f.makeAvail(h)
@@ -823,7 +921,10 @@ func (f *fnValidator) stmt(s ir.Statement) {
 		f.nested(k.Block)
 	case ir.StmtIf:
 		if t, ok := f.typeOf(k.Condition); ok {
-			f.check(RuleCondType, innerEq(f.m, t.In, scBool, 0), "%s: if condition e%d has type %s", f.where, k.Condition, describe(f.m, t))
+			f.count[rCondType]++
+			if !innerEq(f.m, t.In, scBool, 0) {
+				f.add(rCondType, "%s: if condition e%d has type %s", f.where, k.Condition, describe(f.m, t))
+			}
 		}
 		f.nested(k.Accept)
 		f.nested(k.Reject)
@@ -832,7 +933,7 @@ func (f *fnValidator) stmt(s ir.Statement) {
 		selOK := false
 		if t, ok := f.typeOf(k.Selector); ok {
 			sel, selOK = t.In.(ir.ScalarType)
-			f.check(RuleCondType, selOK && isInt(sel) && sel.Width == 4, "%s: switch selector e%d has type %s", f.where, k.Selector, describe(f.m, t))
+			f.check(rCondType, selOK && isInt(sel) && sel.Width == 4, "%s: switch selector e%d has type %s", f.where, k.Selector, describe(f.m, t))
 		}
 		defaults := 0
 		seen := map[int64]bool{}
@@ -843,26 +944,26 @@ func (f *fnValidator) stmt(s ir.Statement) {
 				defaults++
 			case ir.SwitchValueI32:
 				if selOK {
-					f.check(RuleCondType, sel.Kind == ir.ScalarSint, "%s: switch case %d is i32 but selector is %s", f.where, ci, scalarName(sel))
+					f.check(rCondType, sel.Kind == ir.ScalarSint, "%s: switch case %d is i32 but selector is %s", f.where, ci, scalarName(sel))
 				}
-				f.check(RuleCondType, !seen[int64(cv)], "%s: duplicate switch case value %d", f.where, cv)
+				f.check(rCondType, !seen[int64(cv)], "%s: duplicate switch case value %d", f.where, cv)
 				seen[int64(cv)] = true
 			case ir.SwitchValueU32:
 				if selOK {
-					f.check(RuleCondType, sel.Kind == ir.ScalarUint, "%s: switch case %d is u32 but selector is %s", f.where, ci, scalarName(sel))
+					f.check(rCondType, sel.Kind == ir.ScalarUint, "%s: switch case %d is u32 but selector is %s", f.where, ci, scalarName(sel))
 				}
-				f.check(RuleCondType, !seen[int64(cv)], "%s: duplicate switch case value %d", f.where, cv)
+				f.check(rCondType, !seen[int64(cv)], "%s: duplicate switch case value %d", f.where, cv)
 				seen[int64(cv)] = true
 			default:
-				f.check(RuleCondType, false, "%s: switch case %d has value %T", f.where, ci, c.Value)
+				f.check(rCondType, false, "%s: switch case %d has value %T", f.where, ci, c.Value)
 			}
 			if ci == len(k.Cases)-1 {
-				f.check(RuleCondType, !c.FallThrough, "%s: last switch case falls through", f.where)
+				f.check(rCondType, !c.FallThrough, "%s: last switch case falls through", f.where)
 			}
 			f.nested(c.Body)
 		}
 		f.ctx = f.ctx[:len(f.ctx)-1]
-		f.check(RuleCondType, defaults == 1, "%s: switch has %d default cases", f.where, defaults)
+		f.check(rCondType, defaults == 1, "%s: switch has %d default cases", f.where, defaults)
 	case ir.StmtLoop:
 		mark := len(f.scope)
 		li := &loopInfo{base: mark, minAtCont: -1}
@@ -877,9 +978,9 @@ func (f *fnValidator) stmt(s ir.Statement) {
 		}
 		f.block(k.Continuing)
 		if k.BreakIf != nil {
-			f.use(*k.BreakIf, "break-if")
+			f.use(*k.BreakIf, k)
 			if t, ok := f.typeOf(*k.BreakIf); ok {
-				f.check(RuleCondType, innerEq(f.m, t.In, scBool, 0), "%s: break-if condition e%d has type %s", f.where, *k.BreakIf, describe(f.m, t))
+				f.check(rCondType, innerEq(f.m, t.In, scBool, 0), "%s: break-if condition e%d has type %s", f.where, *k.BreakIf, describe(f.m, t))
 			}
 		}
 		f.ctx = f.ctx[:len(f.ctx)-1]
@@ -896,7 +997,7 @@ func (f *fnValidator) stmt(s ir.Statement) {
 			}
 			break
 		}
-		f.check(RuleBreakContinue, ok, "%s: break %s", f.where, why)
+		f.check(rBreakContinue, ok, "%s: break %s", f.where, why)
 	case ir.StmtContinue:
 		ok := false
 		why := "outside loop"
@@ -911,7 +1012,7 @@ func (f *fnValidator) stmt(s ir.Statement) {
 			}
 			break
 		}
-		f.check(RuleBreakContinue, ok, "%s: continue %s", f.where, why)
+		f.check(rBreakContinue, ok, "%s: continue %s", f.where, why)
 		if l := f.curLoop(); l != nil {
 			lvl := len(f.scope)
 			if l.depth > 0 {
@@ -923,11 +1024,14 @@ func (f *fnValidator) stmt(s ir.Statement) {
 		}
 	case ir.StmtReturn:
 		if fn.Result == nil {
-			f.check(RuleReturnType, k.Value == nil, "%s: return with a value in a function without result", f.where)
-		} else if f.check(RuleReturnType, k.Value != nil, "%s: return without value in a function with result", f.where) {
+			f.check(rReturnType, k.Value == nil, "%s: return with a value in a function without result", f.where)
+		} else if f.check(rReturnType, k.Value != nil, "%s: return without value in a function with result", f.where) {
 			if t, ok := f.typeOf(*k.Value); ok && f.typeOK(fn.Result.Type) {
 				want := rtype{H: int(fn.Result.Type), In: f.m.Types[fn.Result.Type].Inner}
-				f.check(RuleReturnType, sameType(f.m, t, want), "%s: return value e%d has type %s, function result is %s", f.where, *k.Value, describe(f.m, t), describe(f.m, want))
+				f.count[rReturnType]++
+				if !sameType(f.m, t, want) {
+					f.add(rReturnType, "%s: return value e%d has type %s, function result is %s", f.where, *k.Value, describe(f.m, t), describe(f.m, want))
+				}
 			}
 		}
 	case ir.StmtStore:
@@ -938,11 +1042,11 @@ func (f *fnValidator) stmt(s ir.Statement) {
 		f.atomic(k)
 	}
 	for _, d := range defs {
-		if !f.check(RuleHandleRange, int(d) < f.n, "%s: %s result e%d out of range", f.where, what, d) {
+		if !f.check(rHandleRange, int(d) < f.n, "%s: %T result e%d out of range", f.where, what, d) {
 			continue
 		}
-		f.check(RuleEmitNever, statementResult(fn.Expressions[d].Kind), "%s: %s result e%d is a %T, not a statement-result expression", f.where, what, d, fn.Expressions[d].Kind)
-		f.check(RuleEmitDominates, !f.avail[d], "%s: %s result e%d is defined a second time in scope", f.where, what, d)
+		f.check(rEmitNever, statementResult(fn.Expressions[d].Kind), "%s: %T result e%d is a %T, not a statement-result expression", f.where, what, d, fn.Expressions[d].Kind)
+		f.check(rEmitDominates, !f.avail[d], "%s: %T result e%d is defined a second time in scope", f.where, what, d)
 		f.makeAvail(d)
 	}
 }
@@ -994,46 +1098,54 @@ func (f *fnValidator) store(k ir.StmtStore) {
 		return
 	}
 	space, isPtr := ptrSpace(pt.In)
-	if !f.check(RuleStore, isPtr, "%s: store through e%d of non-pointer type %s", f.where, k.Pointer, describe(f.m, pt)) {
+	f.count[rStore]++
+	if !isPtr {
+		f.add(rStore, "%s: store through e%d of non-pointer type %s", f.where, k.Pointer, describe(f.m, pt))
 		return
 	}
-	f.check(RuleStore, writableSpace(space), "%s: store through e%d into address space %d", f.where, k.Pointer, space)
+	f.check(rStore, writableSpace(space), "%s: store through e%d into address space %d", f.where, k.Pointer, space)
 	if g := f.rootGlobal(k.Pointer); g != nil && g.Space == ir.SpaceStorage {
-		f.check(RuleStore, g.Access == ir.StorageReadWrite, "%s: store through e%d into read-only storage global %q", f.where, k.Pointer, g.Name)
+		f.check(rStore, g.Access == ir.StorageReadWrite, "%s: store through e%d into read-only storage global %q", f.where, k.Pointer, g.Name)
 	}
 	pointee, err := f.ty.pointee(pt, true)
 	if err != nil {
 		return
 	}
-	f.check(RuleStore, sameType(f.m, pointee, vt), "%s: store of e%d : %s through e%d : %s", f.where, k.Value, describe(f.m, vt), k.Pointer, describe(f.m, pt))
+	f.count[rStore]++
+	if !sameType(f.m, pointee, vt) {
+		f.add(rStore, "%s: store of e%d : %s through e%d : %s", f.where, k.Value, describe(f.m, vt), k.Pointer, describe(f.m, pt))
+	}
 }
 
 func (f *fnValidator) call(k ir.StmtCall) {
 	m := f.m
-	if !f.check(RuleHandleRange, int(k.Function) < len(m.Functions), "%s: call of function %d out of range", f.where, k.Function) {
+	if !f.check(rHandleRange, int(k.Function) < len(m.Functions), "%s: call of function %d out of range", f.where, k.Function) {
 		return
 	}
 	callee := &m.Functions[k.Function]
-	if f.check(RuleCall, len(k.Arguments) == len(callee.Arguments), "%s: call of %q with %d arguments, want %d", f.where, callee.Name, len(k.Arguments), len(callee.Arguments)) {
+	if f.check(rCall, len(k.Arguments) == len(callee.Arguments), "%s: call of %q with %d arguments, want %d", f.where, callee.Name, len(k.Arguments), len(callee.Arguments)) {
 		for i, a := range k.Arguments {
 			at, ok := f.typeOf(a)
 			if !ok || !f.typeOK(callee.Arguments[i].Type) {
 				continue
 			}
 			want := rtype{H: int(callee.Arguments[i].Type), In: m.Types[callee.Arguments[i].Type].Inner}
-			f.check(RuleCall, sameType(m, at, want), "%s: call of %q: argument %d (e%d) has type %s, parameter is %s", f.where, callee.Name, i, a, describe(m, at), describe(m, want))
+			f.count[rCall]++
+			if !sameType(m, at, want) {
+				f.add(rCall, "%s: call of %q: argument %d (e%d) has type %s, parameter is %s", f.where, callee.Name, i, a, describe(m, at), describe(m, want))
+			}
 		}
 	}
 	if callee.Result == nil {
-		f.check(RuleCall, k.Result == nil, "%s: call of %q (no result) has a result expression", f.where, callee.Name)
+		f.check(rCall, k.Result == nil, "%s: call of %q (no result) has a result expression", f.where, callee.Name)
 		return
 	}
-	if !f.check(RuleCall, k.Result != nil, "%s: call of %q (with result) has no result expression", f.where, callee.Name) {
+	if !f.check(rCall, k.Result != nil, "%s: call of %q (with result) has no result expression", f.where, callee.Name) {
 		return
 	}
 	if int(*k.Result) < f.n {
 		cr, ok := f.fn.Expressions[*k.Result].Kind.(ir.ExprCallResult)
-		f.check(RuleCall, ok && cr.Function == k.Function, "%s: call of function %d: result e%d is %T%v", f.where, k.Function, *k.Result, f.fn.Expressions[*k.Result].Kind, f.fn.Expressions[*k.Result].Kind)
+		f.check(rCall, ok && cr.Function == k.Function, "%s: call of function %d: result e%d is %T%v", f.where, k.Function, *k.Result, f.fn.Expressions[*k.Result].Kind, f.fn.Expressions[*k.Result].Kind)
 	}
 }
 
@@ -1048,41 +1160,41 @@ func (f *fnValidator) atomic(k ir.StmtAtomic) {
 	if p, ok := pt.In.(ir.PointerType); ok && f.typeOK(p.Base) {
 		if at, ok := m.Types[p.Base].Inner.(ir.AtomicType); ok {
 			sc, isAtomic = at.Scalar, true
-			f.check(RuleAtomic, p.Space == ir.SpaceStorage || p.Space == ir.SpaceWorkGroup, "%s: atomic on address space %d", f.where, p.Space)
+			f.check(rAtomic, p.Space == ir.SpaceStorage || p.Space == ir.SpaceWorkGroup, "%s: atomic on address space %d", f.where, p.Space)
 		}
 	}
-	if !f.check(RuleAtomic, isAtomic, "%s: atomic statement on e%d of type %s", f.where, k.Pointer, describe(m, pt)) {
+	if !f.check(rAtomic, isAtomic, "%s: atomic statement on e%d of type %s", f.where, k.Pointer, describe(m, pt)) {
 		return
 	}
 	if g := f.rootGlobal(k.Pointer); g != nil && g.Space == ir.SpaceStorage {
 		if _, isLoad := k.Fun.(ir.AtomicLoad); !isLoad {
-			f.check(RuleAtomic, g.Access == ir.StorageReadWrite, "%s: atomic write on read-only storage global %q", f.where, g.Name)
+			f.check(rAtomic, g.Access == ir.StorageReadWrite, "%s: atomic write on read-only storage global %q", f.where, g.Name)
 		}
 	}
 	_, isLoad := k.Fun.(ir.AtomicLoad)
 	_, isStore := k.Fun.(ir.AtomicStore)
 	if !isLoad {
 		if vt, ok := f.typeOf(k.Value); ok {
-			f.check(RuleAtomic, innerEq(m, vt.In, sc, 0), "%s: atomic value e%d has type %s, atomic is %s", f.where, k.Value, describe(m, vt), scalarName(sc))
+			f.check(rAtomic, innerEq(m, vt.In, sc, 0), "%s: atomic value e%d has type %s, atomic is %s", f.where, k.Value, describe(m, vt), scalarName(sc))
 		}
 	}
 	comparison := false
 	if x, ok := k.Fun.(ir.AtomicExchange); ok && x.Compare != nil {
 		comparison = true
 		if ct, ok := f.typeOf(*x.Compare); ok {
-			f.check(RuleAtomic, innerEq(m, ct.In, sc, 0), "%s: atomic compare e%d has type %s, atomic is %s", f.where, *x.Compare, describe(m, ct), scalarName(sc))
+			f.check(rAtomic, innerEq(m, ct.In, sc, 0), "%s: atomic compare e%d has type %s, atomic is %s", f.where, *x.Compare, describe(m, ct), scalarName(sc))
 		}
 	}
 	if k.Fun == nil {
-		f.check(RuleAtomic, false, "%s: atomic statement without function", f.where)
+		f.check(rAtomic, false, "%s: atomic statement without function", f.where)
 		return
 	}
 	if isStore {
-		f.check(RuleAtomic, k.Result == nil, "%s: atomic store with a result", f.where)
+		f.check(rAtomic, k.Result == nil, "%s: atomic store with a result", f.where)
 		return
 	}
 	if isLoad || comparison {
-		if !f.check(RuleAtomic, k.Result != nil, "%s: %T without result", f.where, k.Fun) {
+		if !f.check(rAtomic, k.Result != nil, "%s: %T without result", f.where, k.Fun) {
 			return
 		}
 	}
@@ -1090,22 +1202,22 @@ func (f *fnValidator) atomic(k ir.StmtAtomic) {
 		return
 	}
 	ar, ok := f.fn.Expressions[*k.Result].Kind.(ir.ExprAtomicResult)
-	if !f.check(RuleAtomic, ok, "%s: atomic result e%d is %T", f.where, *k.Result, f.fn.Expressions[*k.Result].Kind) {
+	if !f.check(rAtomic, ok, "%s: atomic result e%d is %T", f.where, *k.Result, f.fn.Expressions[*k.Result].Kind) {
 		return
 	}
-	f.check(RuleAtomic, ar.Comparison == comparison, "%s: atomic result e%d has Comparison=%v for %T", f.where, *k.Result, ar.Comparison, k.Fun)
+	f.check(rAtomic, ar.Comparison == comparison, "%s: atomic result e%d has Comparison=%v for %T", f.where, *k.Result, ar.Comparison, k.Fun)
 	if !f.typeOK(ar.Ty) {
 		return
 	}
 	rt := m.Types[ar.Ty].Inner
 	if !comparison {
-		f.check(RuleAtomic, innerEq(m, rt, sc, 0), "%s: atomic result e%d has type %s, atomic is %s", f.where, *k.Result, describeInner(m, rt, 0), scalarName(sc))
+		f.check(rAtomic, innerEq(m, rt, sc, 0), "%s: atomic result e%d has type %s, atomic is %s", f.where, *k.Result, describeInner(m, rt, 0), scalarName(sc))
 		return
 	}
 	st, ok := rt.(ir.StructType)
 	good := ok && len(st.Members) == 2 && f.typeOK(st.Members[0].Type) && f.typeOK(st.Members[1].Type) &&
 		innerEq(m, m.Types[st.Members[0].Type].Inner, sc, 0) && innerEq(m, m.Types[st.Members[1].Type].Inner, scBool, 0)
-	f.check(RuleAtomic, good, "%s: compare-exchange result e%d has type %s, want {old_value: %s, exchanged: bool}", f.where, *k.Result, describeInner(m, rt, 0), scalarName(sc))
+	f.check(rAtomic, good, "%s: compare-exchange result e%d has type %s, want {old_value: %s, exchanged: bool}", f.where, *k.Result, describeInner(m, rt, 0), scalarName(sc))
 }
 
 // ---------------------------------------------------------------------------------------------
@@ -1276,27 +1388,27 @@ func (v *validator) entryPoint(ep *ir.EntryPoint) {
 	m := v.m
 	fn := &ep.Function
 	where := fmt.Sprintf("entry point %q", ep.Name)
-	v.check(RuleEPStage, ep.Stage <= ir.StageCompute, "%s: unknown stage %d", where, ep.Stage)
+	v.check(rEPStage, ep.Stage <= ir.StageCompute, "%s: unknown stage %d", where, ep.Stage)
 	switch ep.Stage {
 	case ir.StageCompute:
-		v.check(RuleEPStage, ep.Workgroup[0] != 0 && ep.Workgroup[1] != 0 && ep.Workgroup[2] != 0, "%s: compute workgroup size %v has a zero dimension", where, ep.Workgroup)
-		v.check(RuleEPStage, fn.Result == nil, "%s: compute entry point has a result", where)
+		v.check(rEPStage, ep.Workgroup[0] != 0 && ep.Workgroup[1] != 0 && ep.Workgroup[2] != 0, "%s: compute workgroup size %v has a zero dimension", where, ep.Workgroup)
+		v.check(rEPStage, fn.Result == nil, "%s: compute entry point has a result", where)
 	case ir.StageVertex, ir.StageFragment:
-		v.check(RuleEPStage, ep.Workgroup == [3]uint32{}, "%s: stage %d entry point has workgroup size %v", where, ep.Stage, ep.Workgroup)
+		v.check(rEPStage, ep.Workgroup == [3]uint32{}, "%s: stage %d entry point has workgroup size %v", where, ep.Stage, ep.Workgroup)
 	}
-	unbound := func(w string) { v.check(RuleEPBinding, false, "%s: %s has no binding", where, w) }
+	unbound := func(w string) { v.check(rEPBinding, false, "%s: %s has no binding", where, w) }
 	var ins, outs []ioItem
 	for i, a := range fn.Arguments {
 		items := v.ioItems(fmt.Sprintf("argument %d %q", i, a.Name), a.Type, a.Binding, unbound)
 		if len(items) > 0 {
-			v.fired(RuleEPBinding)
+			v.fired(rEPBinding)
 		}
 		ins = append(ins, items...)
 	}
 	if fn.Result != nil {
 		items := v.ioItems("result", fn.Result.Type, fn.Result.Binding, unbound)
 		if len(items) > 0 {
-			v.fired(RuleEPBinding)
+			v.fired(rEPBinding)
 		}
 		outs = append(outs, items...)
 	}
@@ -1307,7 +1419,7 @@ func (v *validator) entryPoint(ep *ir.EntryPoint) {
 				has = true
 			}
 		}
-		v.check(RuleEPStage, has, "%s: vertex entry point does not output @builtin(position)", where)
+		v.check(rEPStage, has, "%s: vertex entry point does not output @builtin(position)", where)
 	}
 	dir := func(items []ioItem, input bool) {
 		name := "output"
@@ -1325,16 +1437,16 @@ func (v *validator) entryPoint(ep *ir.EntryPoint) {
 					k.blend = int64(*b.BlendSrc)
 				}
 				prev, dup := locs[k]
-				v.check(RuleEPLocation, !dup, "%s: %ss %s and %s share @location(%d)", where, name, prev, it.what, b.Location)
+				v.check(rEPLocation, !dup, "%s: %ss %s and %s share @location(%d)", where, name, prev, it.what, b.Location)
 				locs[k] = it.what
-				v.check(RuleEPStage, ep.Stage != ir.StageCompute, "%s: compute %s %s has a @location", where, name, it.what)
+				v.check(rEPStage, ep.Stage != ir.StageCompute, "%s: compute %s %s has a @location", where, name, it.what)
 				if v.typeOK(it.ty) {
 					sh := shapeOf(m.Types[it.ty].Inner)
-					v.check(RuleEPLocation, (sh.kind == 's' || sh.kind == 'v') && isNum(sh.sc), "%s: %s %s at @location(%d) has type %s", where, name, it.what, b.Location, describeInner(m, m.Types[it.ty].Inner, 0))
+					v.check(rEPLocation, (sh.kind == 's' || sh.kind == 'v') && isNum(sh.sc), "%s: %s %s at @location(%d) has type %s", where, name, it.what, b.Location, describeInner(m, m.Types[it.ty].Inner, 0))
 				}
 			case ir.BuiltinBinding:
 				prev, dup := seenB[b.Builtin]
-				v.check(RuleEPBuiltin, !dup, "%s: builtin %d bound twice among %ss (%s, %s)", where, b.Builtin, name, prev, it.what)
+				v.check(rEPBuiltin, !dup, "%s: builtin %d bound twice among %ss (%s, %s)", where, b.Builtin, name, prev, it.what)
 				seenB[b.Builtin] = it.what
 				rules, known := builtinRules[b.Builtin]
 				if !known || ep.Stage == ir.StageMesh || ep.Stage == ir.StageTask {
@@ -1349,11 +1461,11 @@ func (v *validator) entryPoint(ep *ir.EntryPoint) {
 						}
 					}
 				}
-				if v.check(RuleEPBuiltin, stageOK, "%s: builtin %d is not a valid %s of stage %d (%s)", where, b.Builtin, name, ep.Stage, it.what) && v.typeOK(it.ty) {
-					v.check(RuleEPBuiltin, typeOK, "%s: builtin %d on %s has type %s", where, b.Builtin, it.what, describeInner(m, m.Types[it.ty].Inner, 0))
+				if v.check(rEPBuiltin, stageOK, "%s: builtin %d is not a valid %s of stage %d (%s)", where, b.Builtin, name, ep.Stage, it.what) && v.typeOK(it.ty) {
+					v.check(rEPBuiltin, typeOK, "%s: builtin %d on %s has type %s", where, b.Builtin, it.what, describeInner(m, m.Types[it.ty].Inner, 0))
 				}
 			default:
-				v.check(RuleEPBinding, false, "%s: %s has binding of unknown kind %T", where, it.what, it.b)
+				v.check(rEPBinding, false, "%s: %s has binding of unknown kind %T", where, it.what, it.b)
 			}
 		}
 	}
@@ -1372,9 +1484,9 @@ func (v *validator) resources() {
 	m := v.m
 	for i, g := range m.GlobalVariables {
 		if resourceSpace(g.Space) {
-			v.check(RuleResBinding, g.Binding != nil, "global %d %q in address space %d has no @group/@binding", i, g.Name, g.Space)
+			v.check(rResBinding, g.Binding != nil, "global %d %q in address space %d has no @group/@binding", i, g.Name, g.Space)
 		} else {
-			v.check(RuleResBinding, g.Binding == nil, "global %d %q in address space %d has a resource binding", i, g.Name, g.Space)
+			v.check(rResBinding, g.Binding == nil, "global %d %q in address space %d has a resource binding", i, g.Name, g.Space)
 		}
 	}
 	// globals used directly by each function
@@ -1441,9 +1553,9 @@ func (v *validator) resources() {
 			}
 			prev, dup := used[*gv.Binding]
 			if dup {
-				v.check(RuleBindingClash, false, "entry point %q: globals %q and %q share @group(%d) @binding(%d)", ep.Name, m.GlobalVariables[prev].Name, gv.Name, gv.Binding.Group, gv.Binding.Binding)
+				v.check(rBindingClash, false, "entry point %q: globals %q and %q share @group(%d) @binding(%d)", ep.Name, m.GlobalVariables[prev].Name, gv.Name, gv.Binding.Group, gv.Binding.Binding)
 			} else {
-				v.fired(RuleBindingClash)
+				v.fired(rBindingClash)
 				used[*gv.Binding] = h
 			}
 		}
